@@ -624,3 +624,91 @@ func ruleUnreadEOF(c *Ctx, r *Report) {
 	}
 	r.analysed(rule, fname(un))
 }
+
+// ---------------------------------------------------------------------------
+// R-EOS-AT-EMPTY (C19; added after seed C19c): "end_of_stream is never at/past while input remains". The
+// end-of-stream state is set to `at` only under a fact that nothing is buffered (Buffered() == 0) or that
+// the stream was past its end (coming back from there, F21). A reader may hand over its last bytes together
+// with io.EOF; the recorded EOF of the source alone does not mean that the buffered text has been read.
+
+func ruleEosAtEmpty(c *Ctx, r *Report) {
+	const rule = "R-EOS-AT-EMPTY"
+	eos := c.engType("endOfStream")
+	if eos == nil {
+		r.undecided(rule, "anchor:endOfStream", "-", "locate the endOfStream enumeration", "not found")
+		return
+	}
+	vals := map[string]int64{}
+	if e := c.enumOf(eos); e != nil {
+		for _, k := range e.consts {
+			v, _ := constant.Int64Val(k.Val())
+			vals[k.Name()] = v
+		}
+	}
+	at, okAt := vals["endOfStreamAt"]
+	past, okPast := vals["endOfStreamPast"]
+	if !okAt || !okPast {
+		r.undecided(rule, "anchor:endOfStreamAt", "-", "locate endOfStreamAt/endOfStreamPast", "not found")
+		return
+	}
+	desc := "the end-of-stream state becomes `at` only when nothing is buffered (or when coming back from past-the-end)"
+	n := 0
+	for _, fn := range c.LibFuncs() {
+		seen := 0
+		eachInstr(fn, func(in ssa.Instruction) {
+			st, ok := in.(*ssa.Store)
+			if !ok {
+				return
+			}
+			fa, ok := st.Addr.(*ssa.FieldAddr)
+			if !ok || fieldName(fa) != "endOfStream" || !isEngNamed(deref(fa.X.Type()), "Stream") {
+				return
+			}
+			if k, ok := constInt(st.Val); !ok || k != at {
+				return
+			}
+			if _, fresh := fa.X.(*ssa.Alloc); fresh {
+				return // constructor
+			}
+			n++
+			seen++
+			key := fmt.Sprintf("%s/at#%d", fname(fn), seen)
+			good := ""
+			for f := range c.factsAt(in.Block()) {
+				bo, ok := f.cond.(*ssa.BinOp)
+				if !ok || (bo.Op != token.EQL && bo.Op != token.NEQ) || (bo.Op == token.EQL) != f.pol {
+					continue
+				}
+				for _, pair := range [][2]ssa.Value{{bo.X, bo.Y}, {bo.Y, bo.X}} {
+					k, isK := constInt(pair[1])
+					if !isK {
+						continue
+					}
+					// Buffered() == 0
+					for _, l := range c.originSet(pair[0]) {
+						if call, ok := l.(*ssa.Call); ok && k == 0 {
+							if f := call.Call.StaticCallee(); f != nil && f.Name() == "Buffered" {
+								good = "Buffered() == 0"
+							}
+						}
+					}
+					// endOfStream == past
+					if ld, ok := pair[0].(*ssa.UnOp); ok && ld.Op == token.MUL {
+						if fa2, ok := ld.X.(*ssa.FieldAddr); ok && fieldName(fa2) == "endOfStream" && k == past {
+							good = "endOfStream == endOfStreamPast"
+						}
+					}
+				}
+			}
+			if good != "" {
+				r.ok(rule, key, c.at(in), desc, "under the fact "+good, true)
+			} else {
+				r.bad(rule, fmt.Sprintf("%s/at", fname(fn)), c.at(in), desc, "set to `at` without knowing that the buffer is empty: with a reader that returns its last bytes together with io.EOF, at_end_of_stream succeeds while text remains")
+			}
+		})
+	}
+	if n == 0 {
+		r.bad(rule, "scan/at", "-", desc, "the state `at` is never set")
+	}
+	r.analysed(rule, fmt.Sprintf("%d stores of endOfStreamAt", n))
+}
